@@ -84,6 +84,30 @@ def explore(ctx):
                     ctx.violation('an instance of the {} class {} was constructed'.format(
                         'unregistered' if not cl.get('registered', True) else 'abstract', e[1]),
                         dict(L.describe(c), key='instantiated:' + e[1]))
+        # explicit tags on the root mapping of a class-typed document: naming the class the document
+        # loads as changes nothing, naming any other registered class or an unknown one makes it fail
+        if c.doc is not None and c.doc[0] == 'm' and c.doc[2] is None and c.doc_type[0] == 'cls' \
+                and c.real_out[0] == 'ok' and type(c.real_out[1]).__name__ in by:
+            loaded_as = type(c.real_out[1]).__name__
+            for name in [x['name'] for x in c.spec if x.get('registered', True)] + ['Nonexistent']:
+                text2 = '!' + name + ' ' + c.text
+                out2 = c.real.run(text2)
+                ctx.count('root_tag_variants')
+                if name == loaded_as:
+                    ok = out2[0] == 'ok' and CM.val_sexp(out2[1], c.model) == CM.val_sexp(c.real_out[1], c.model)
+                elif name == 'Nonexistent':
+                    ok = out2[0] in ('rec', 'yaml')
+                else:
+                    # another registered class: either the load fails, or the tag picked exactly that
+                    # class (an ancestor or sibling reading of the same mapping inside the declared
+                    # hierarchy) - never a third class
+                    ok = out2[0] in ('rec', 'yaml') or (
+                        out2[0] == 'ok' and type(out2[1]).__name__ == name
+                        and isinstance(out2[1], c.model.classes[c.doc_type[1]]))
+                if not ok:
+                    ctx.violation('document loads as {}; with the tag !{} the outcome is {} {}'.format(
+                        loaded_as, name, out2[0], repr(out2[1])[:120]),
+                        dict(L.describe(c), key='roottag:{}:{}'.format(name, c.text[:50]), tagged_text=text2))
         if not nontrivial:
             continue
         base = outcome_key(c)
@@ -121,7 +145,6 @@ def explore(ctx):
 
 
 def search(ctx, broken):
-    ctx.tier = 'thorough'
     explore(ctx)
 
 
